@@ -113,6 +113,14 @@ def run(rep: common.Report, tier: str, seed: int, replay=None) -> int:
                 expect_rejected(rep, "unbalanced time-dependent currents (wide window, with thermalisation)", f"dev{di} {what}",
                                 lambda out, curs=curs, skip=skip: solve(dev, out, opt_over={"skip_time": skip}, terminal_currents=curs),
                                 td, f"a{n}"); n += 1
+            # unbalanced only at the START of a stage (t = 0, which the solver always evaluates) / from the very END of the range on
+            for what, badf in (("at t = 0 only", lambda t: t <= 0.0), ("at t >= solve_time only", lambda t: t >= 0.02)):
+                def cur0(t, badf=badf):
+                    d = {nm: 1.0 for nm in names[:-1]}
+                    d[names[-1]] = -(len(names) - 1) * 1.0 + (0.5 if badf(t) else 0.0)
+                    return d
+                expect_rejected(rep, "unbalanced time-dependent currents (deterministic sample times)", f"dev{di} {what}",
+                                lambda out, cur0=cur0: solve(dev, out, opt_over={"solve_time": 0.02}, terminal_currents=cur0), td, f"a{n}"); n += 1
             # unbalanced only on a narrow time window: random sampling misses it (known finding)
             def curw(t):
                 bad = 1.0 if 0.0049 < t < 0.00490001 else 0.0
@@ -127,13 +135,23 @@ def run(rep: common.Report, tier: str, seed: int, replay=None) -> int:
                 expect_rejected(rep, "epsilon > 1", f"dev{di} const {e}", lambda out, e=e: solve(dev, out, disorder_epsilon=e), td, f"a{n}"); n += 1
             expect_rejected(rep, "epsilon > 1", f"dev{di} callable, one region",
                             lambda out: solve(dev, out, disorder_epsilon=lambda r: 1.0 + 1e-6 * (r[0] > 0)), td, f"a{n}"); n += 1
+            # a time-dependent epsilon that is admissible at t = 0 and rises above 1 later: only the t = 0 values are checked
+            # (known finding C19-td-epsilon-above-one-later; a check inside the run would come after output exists)
+            def eps_late(r, *, t):
+                return 1.0 if t < 0.004 else 2.0
+            expect_rejected(rep, "epsilon > 1", f"dev{di} time-dependent, above 1 from t = 0.004 on",
+                            lambda out: solve(dev, out, disorder_epsilon=eps_late), td, f"a{n}",
+                            finding_key="C19-td-epsilon-above-one-later"); n += 1
             # 4. inconsistent options
             bad_opts = [dict(dt_init=1e-2, dt_max=1e-3), dict(dt_init=1e-3 * (1 + 1e-6), dt_max=1e-3, adaptive=False),
                         dict(dt_init=1e-2, dt_max=1e-3, adaptive=False), dict(terminal_psi=1.0 + 1e-6), dict(terminal_psi=2.0),
                         dict(adaptive_time_step_multiplier=0.0), dict(adaptive_time_step_multiplier=1.0),
                         dict(adaptive_time_step_multiplier=1.5), dict(screening_step_drag=0.0), dict(screening_step_drag=1.0 + 1e-6),
                         dict(screening_step_size=0.0), dict(screening_step_size=-1.0), dict(screening_tolerance=0.0),
-                        dict(screening_tolerance=-1e-3), dict(sparse_solver="nosuch"), dict(sparse_solver="cupy"), dict(gpu=True)]
+                        dict(screening_tolerance=-1e-3), dict(sparse_solver="nosuch"), dict(sparse_solver="cupy"), dict(gpu=True),
+                        # options with which no step can be recorded / no solver chosen (a non-positive dt_init is only put to
+                        # SolverOptions.validate in the correspondence below: as found, such a run never ended)
+                        dict(save_every=0), dict(save_every=-1), dict(sparse_solver=None)]
             for bo in bad_opts:
                 expect_rejected(rep, "inconsistent options", f"dev{di} {bo}", lambda out, bo=bo: solve(dev, out, opt_over=bo), td, f"a{n}"); n += 1
             # 6. seed solution from a different device
@@ -306,7 +324,7 @@ def run(rep: common.Report, tier: str, seed: int, replay=None) -> int:
                 rep.count(1)
 
     # ---------------- correspondence: options.validate and the balance test ----------------
-    vals = dict(dt=[Fraction(1, 1000), Fraction(1, 100)], psi=[None, Fraction(0), Fraction(1), Fraction(1000001, 1000000), Fraction(-1, 2), Fraction(3, 2)],
+    vals = dict(dt=[Fraction(1, 1000), Fraction(1, 100), Fraction(0), Fraction(-1, 1000)], save=[10, 1, 0, -1, 3, 10], psi=[None, Fraction(0), Fraction(1), Fraction(1000001, 1000000), Fraction(-1, 2), Fraction(3, 2)],
                 mult=[Fraction(0), Fraction(1, 4), Fraction(1), Fraction(3, 2), Fraction(-1, 4)],
                 drag=[Fraction(0), Fraction(1, 2), Fraction(1), Fraction(1000001, 1000000)],
                 size=[Fraction(0), Fraction(1, 10), Fraction(-1)], tol=[Fraction(0), Fraction(1, 1000), Fraction(-1, 1000)])
@@ -317,16 +335,16 @@ def run(rep: common.Report, tier: str, seed: int, replay=None) -> int:
                 for mult in vals["mult"]:
                     for drag, size, tol in ((Fraction(1, 2), Fraction(1, 10), Fraction(1, 1000)),
                                             (rng.choice(vals["drag"]), rng.choice(vals["size"]), rng.choice(vals["tol"]))):
-                        cases.append((dti, dtm, psi, mult, drag, size, tol))
+                        cases.append((dti, dtm, psi, mult, drag, size, tol, Fraction(rng.choice(vals["save"]))))
     impl = []
     flag_dependent = []
-    for (dti, dtm, psi, mult, drag, size, tol) in cases:
+    for (dti, dtm, psi, mult, drag, size, tol, sev) in cases:
         verdicts = []
         # the decision must not depend on switches that are not part of the checked relations (the model has none)
         for adaptive, screening in ((True, False), (False, False), (True, True), (False, True)):
             o = SolverOptions(solve_time=1.0, dt_init=float(dti), dt_max=float(dtm), terminal_psi=None if psi is None else float(psi),
                               adaptive_time_step_multiplier=float(mult), screening_step_drag=float(drag), screening_step_size=float(size),
-                              screening_tolerance=float(tol), adaptive=adaptive, include_screening=screening)
+                              screening_tolerance=float(tol), adaptive=adaptive, include_screening=screening, save_every=int(sev))
             try:
                 o.validate()
                 verdicts.append(1)
@@ -334,14 +352,14 @@ def run(rep: common.Report, tier: str, seed: int, replay=None) -> int:
                 verdicts.append(0)
         impl.append(verdicts[0])
         if len(set(verdicts)) > 1:
-            flag_dependent.append(((dti, dtm, psi, mult, drag, size, tol), verdicts))
+            flag_dependent.append(((dti, dtm, psi, mult, drag, size, tol, sev), verdicts))
     for c_, v_ in flag_dependent[:5]:
         rep.violation("inconsistent solver options are rejected or accepted depending on adaptive / include_screening "
                       "(accepted in at least one setting)",
                       {"options": [str(x) for x in c_], "accepted[(adaptive,screening)=(T,F),(F,F),(T,T),(F,T)]": v_})
     q = lambda f: f"({f.numerator}#{f.denominator})"
-    lits = [f"(Build_vopts {q(a)} {q(b)} {('None' if c is None else '(Some ' + q(c) + ')')} {q(d)} {q(e)} {q(f)} {q(g)})"
-            for (a, b, c, d, e, f, g) in cases]
+    lits = [f"(Build_vopts {q(a)} {q(b)} {('None' if c is None else '(Some ' + q(c) + ')')} {q(d)} {q(e)} {q(f)} {q(g)} {q(h)})"
+            for (a, b, c, d, e, f, g, h) in cases]
     cur_cases = []
     for _ in range(300):
         m = rng.randint(2, 4)
@@ -365,7 +383,7 @@ def run(rep: common.Report, tier: str, seed: int, replay=None) -> int:
         except ValueError:
             cimpl.append(0)
     # where the time-dependent currents are sampled: Model.Validate.sample_tmax (= max(solve_time, skip_time)); the observed
-    # sample times must lie in [0, tmax] and reach its upper part (100 uniform samples: max > 0.8 tmax except with p = 2e-10)
+    # sample times must lie in [0, tmax] and contain the model's deterministic ones, 0 and tmax (Model.Validate.sample_times ... [])
     samp_cases, samp_obs = [], []
     for solve_t, skip_t in ((0.3, 0.0), (0.2, 1.0), (1.0, 0.2), (0.5, 0.5), (1e-3, 40.0), (7.0, 1e-2)):
         seen_t = []
@@ -383,7 +401,8 @@ def run(rep: common.Report, tier: str, seed: int, replay=None) -> int:
          f"Eval vm_compute in map (fun c => if accepts_currents c then 1%Z else 0%Z) "
          f"{coq_list([coq_list([q(x) for x in v], per_line=6) for v in cur_cases], per_line=1)}.\n")
     t += ("Eval vm_compute in map (fun '(a, b, lo, hi) => let m := sample_tmax true a b in\n"
-          "  (if Qle_bool 0 lo then 1%Z else 0%Z, if Qle_bool hi m then 1%Z else 0%Z, if Qle_bool ((8#10) * m) hi then 1%Z else 0%Z)) "
+          "  (if Qle_bool 0 lo then 1%Z else 0%Z, if Qle_bool hi m then 1%Z else 0%Z,\n"
+          "   if forallb (fun t => Qeq_bool t lo || Qeq_bool t hi) (sample_times true a b []) then 1%Z else 0%Z)) "
           f"{coq_list(samp_lits, per_line=1)}.\n")
     rc, out = common.run_model("c19_validate", t)
     ndis = 0
@@ -404,7 +423,7 @@ def run(rep: common.Report, tier: str, seed: int, replay=None) -> int:
                 rep.not_shown("correspondence: the times at which time-dependent currents are validated are not spread over "
                               "[0, Model.Validate.sample_tmax] = [0, max(solve_time, skip_time)]",
                               {"solve_time": solve_t, "skip_time": skip_t, "min_sample": lo, "max_sample": hi, "samples": cnt,
-                               "model_flags(0<=lo, hi<=tmax, 0.8tmax<=hi)": [int(x) for x in flags]})
+                               "model_flags(0<=lo, hi<=tmax, {0, tmax} = {lo, hi})": [int(x) for x in flags]})
         mc = [int(x) for x in common.parse_nested(common.eval_block(out, 1))[0]]
         for v, a, b in zip(cur_cases, mc, cimpl):
             # rounding of the float sum may differ from the exact sum only below 1e-12 relative
